@@ -347,7 +347,12 @@ impl<T: MessageType> MessageEncoder<T> {
         config: &ServiceConfig,
     ) -> io::Result<()> {
         // transfer encoding
-        if !head {
+        //
+        // A 204 response never carries a body (its head is written without framing headers by
+        // `encode_headers`), so no body octets may follow the head either.
+        let bodiless_status = message.status() == Some(StatusCode::NO_CONTENT);
+
+        if !head && !bodiless_status {
             self.te = match length {
                 BodySize::Sized(0) => TransferEncoding::empty(),
                 BodySize::Sized(len) => TransferEncoding::length(len),
